@@ -252,7 +252,11 @@ def r18_3(prog):
 
 
 def run(ctx):
-    return run_config(ctx.prog("S"), "default") + [r18_2(ctx.prog("K")), r18_3(ctx.prog("S"))]
+    from . import c13
+    # R18.4: the holder and the selected alternative are members like any other: their storage is interpreted according to
+    # ATF_POINTER (rule R13.3 evaluated over the open type code)
+    r4 = c13.r13_3(ctx.prog("S"), load_tables("c13"), rid="R18.4", only=lambda f: f.name.startswith("OPEN_TYPE_"), floor=8)
+    return run_config(ctx.prog("S"), "default") + [r18_2(ctx.prog("K")), r18_3(ctx.prog("S")), r4]
 
 
 def thorough(ctx):
